@@ -34,11 +34,31 @@ RULE = ('seeded generator of (schema, op list): 1-3 entities, 1-3 scalar attribu
 def correspondence(ctx):
     import session_m2m
     return session_m2m.extend_corr(ctx, chk.correspondence(ctx, ID))
-def search(ctx, deep): return chk.search(ctx, deep, ID)
-def replay(ctx, data): return chk.replay(ctx, data, ID)
+def _scenarios(cases=None):
+    """tools/session_scenarios.py: fixed multi-step scenarios the history fuzzer does not generate (see its docstring)."""
+    import vlib
+    out = vlib.run_impl('session_scenarios.py', {'family': 'c09', 'cases': cases}, timeout=600)['results']
+    return [vlib.Failure('c09-scenario:' + r['case'], 'committed link rows / session views differ from the state of the program (%s): %s' % (r['case'], r['detail'][:700]), {'scenario_case': r['case']})
+            for r in out if not r['ok']], len(out)
 
 
-LEVEL_TEXT = ("Exploration plus partial proof, Stage 1 schema space. EXPLORED on every run: generated histories (creates, updates, deletes, reference and collection changes, flushes, commits, rollbacks, new sessions, ~15 % malformed ops) run on real Pony + SQLite; after every commit / rollback / db_session exit the rows read through a separate connection must equal the committed copy of an independent logical reference state (tools/session_spec.py), and objects that have to be saved must be queued. PROVED (Coq, every schema, every state / history of the executable session model): only commit / leaving the db_session change the committed database - every other operation, incl. rollback, failing operations and reads with their auto-flush, leaves it alone; a failing commit publishes nothing and the next session starts from the last commit; rollback discards database changes and the whole cache; what later sessions see after a rollback depends on the committed database only; a successful commit publishes exactly the flushed transaction; a flush that succeeds leaves no object with status created / modified / marked_to_delete, provided every such object was queued at its _save_pos_; that premise - the queue invariant: pending objects have a _save_pos_, the slot there holds them, only pending objects have one - is proved for EVERY history that reached no dirty site (every function of the model; the dirty sites are the known findings queue-not-queued@...), so in a clean history every successful flush saves every object the program created, changed or deleted. PROVED additionally for Stage 1 schemas WITHOUT Required references only (no ON DELETE CASCADE; C09_cache_database_coherence_except_known, Proofs/SessionCoh.v): cache/database coherence for scalar attributes is an invariant of every history that reached no dirty site - for the object the primary-key index names, dbvals mirror the row of the transaction's database, every value the program did not write in this transaction is the row's value, a loaded/inserted/updated object has no written bit, every non-seed object has its row; both databases keep key constraints and one column per attribute in EVERY history - and from it the first piece of the simulation, C09_committed_scalars_except_known: after a successful commit in a clean history whose transaction had something to save, for every object the program did not delete (and that is not a mere seed) the committed row exists and holds exactly the object's current scalar (int/str) attribute values (C09_committed_scalars_settled_except_known: the same without the 'something to save' premise for objects whose status is loaded/inserted/updated). STAGE 2 PIECE (many-to-many link sets): a separate executable model coq/Model/SessionM2M.v (SetData items/added/removed on both sides, Set.load with partial loads and prefetching, add/remove/assignment, reverse_add/reverse_remove/db_reverse_add, _calc_modified_m2m with remove_m2m/add_m2m, commit, rollback; fixed schema A.bs <-> B.as_ over stored objects) is compared with real Pony + SQLite on generated histories on every run (every read, every committed link-table dump, inside Coq by vm_compute; reverting fix 83f8eb8 makes it disagree), and for it C09_m2m_committed_changes_only_at_commit, C09_m2m_commit_publishes, C09_m2m_rollback_discards and C09_m2m_flush_rows (the link rows a flush writes are exactly: rows removed in the A.bs views deleted, rows added there inserted) are proved for every state and operation; the both-ends invariant of that model is not proved. Stage covered by each theorem: the C09_m2m_* theorems the Stage 2 many-to-many piece only; all other theorems Stage 1 (one-to-many relationships only; no many-to-many, one-to-one, composite keys, inheritance); the transaction-structure and queue theorems every Stage 1 schema, the coherence theorems Stage 1 schemas without Required references. PARTIAL (C09_reference_columns_partial, every Stage 1 schema, statement level only): an INSERT writes for every column attribute the image of the object's value (for a reference the referred object's primary key), an UPDATE does so for the written attributes and keeps the other columns. NOT proved: that at commit reference columns hold the referred object's key (needs: principals keep their keys, no row refers to a principal when its DELETE runs, loaded collections are complete - stated in Proofs/SessionRefs.v, checked on histories only), anything for schemas with Required references (cascade delete), that the committed database holds no other rows than the program's objects (no full simulation proof between the session model and the reference state). Two defects are refuted by model witnesses (auto-generated id clash commits an orphan row; an assignment to a seed object is lost), four queue findings of the implementation (objects live in the session but in no save queue after a failed creation / delete / collection change / Entity.set) were repaired in /repo by 751c8a4 and 6e4a87a and are recorded as fixed; one remains known (a creation on an entity with a composite key over references raises KeyError and leaves the half-built object linked and unqueued) (regression histories in corpus/C09/fixed-*.json; the model stops at those dirty sites either way).")
+def search(ctx, deep):
+    s = chk.search(ctx, deep, ID)
+    fails, n = _scenarios()
+    s.failures = fails + list(s.failures)
+    s.evaluations += n
+    s.distribution['fixed_scenarios'] = n
+    return s
+
+
+def replay(ctx, data):
+    if 'scenario_case' in data:
+        fails, _ = _scenarios([data['scenario_case']])
+        return fails[0] if fails else None
+    return chk.replay(ctx, data, ID)
+
+
+LEVEL_TEXT = ("Exploration plus partial proof, Stage 1 schema space. EXPLORED on every run: fixed multi-step scenarios (tools/session_scenarios.py: a pending many-to-many change from either side, then a delete() that empties the collection and FAILS - ConstraintError, caught -, then commit / flush+commit / rollback: session views, the views after the commit, the link rows read through a second connection and a new session must all equal the program's logical state; 28 cases); generated histories (creates, updates, deletes, reference and collection changes, flushes, commits, rollbacks, new sessions, ~15 % malformed ops) run on real Pony + SQLite; after every commit / rollback / db_session exit the rows read through a separate connection must equal the committed copy of an independent logical reference state (tools/session_spec.py), and objects that have to be saved must be queued. PROVED (Coq, every schema, every state / history of the executable session model): only commit / leaving the db_session change the committed database - every other operation, incl. rollback, failing operations and reads with their auto-flush, leaves it alone; a failing commit publishes nothing and the next session starts from the last commit; rollback discards database changes and the whole cache; what later sessions see after a rollback depends on the committed database only; a successful commit publishes exactly the flushed transaction; a flush that succeeds leaves no object with status created / modified / marked_to_delete, provided every such object was queued at its _save_pos_; that premise - the queue invariant: pending objects have a _save_pos_, the slot there holds them, only pending objects have one - is proved for EVERY history that reached no dirty site (every function of the model; the dirty sites are the known findings queue-not-queued@...), so in a clean history every successful flush saves every object the program created, changed or deleted. PROVED additionally for Stage 1 schemas WITHOUT Required references only (no ON DELETE CASCADE; C09_cache_database_coherence_except_known, Proofs/SessionCoh.v): cache/database coherence for scalar attributes is an invariant of every history that reached no dirty site - for the object the primary-key index names, dbvals mirror the row of the transaction's database, every value the program did not write in this transaction is the row's value, a loaded/inserted/updated object has no written bit, every non-seed object has its row; both databases keep key constraints and one column per attribute in EVERY history - and from it the first piece of the simulation, C09_committed_scalars_except_known: after a successful commit in a clean history whose transaction had something to save, for every object the program did not delete (and that is not a mere seed) the committed row exists and holds exactly the object's current scalar (int/str) attribute values (C09_committed_scalars_settled_except_known: the same without the 'something to save' premise for objects whose status is loaded/inserted/updated). STAGE 2 PIECE (many-to-many link sets): a separate executable model coq/Model/SessionM2M.v (SetData items/added/removed on both sides, Set.load with partial loads and prefetching, add/remove/assignment, reverse_add/reverse_remove/db_reverse_add, _calc_modified_m2m with remove_m2m/add_m2m, commit, rollback; fixed schema A.bs <-> B.as_ over stored objects) is compared with real Pony + SQLite on generated histories on every run (every read, every committed link-table dump, inside Coq by vm_compute; reverting fix 83f8eb8 makes it disagree), and for it C09_m2m_committed_changes_only_at_commit, C09_m2m_commit_publishes, C09_m2m_rollback_discards and C09_m2m_flush_rows (the link rows a flush writes are exactly: rows removed in the A.bs views deleted, rows added there inserted) are proved for every state and operation; the both-ends invariant of that model is not proved. Stage covered by each theorem: the C09_m2m_* theorems the Stage 2 many-to-many piece only; all other theorems Stage 1 (one-to-many relationships only; no many-to-many, one-to-one, composite keys, inheritance); the transaction-structure and queue theorems every Stage 1 schema, the coherence theorems Stage 1 schemas without Required references. PARTIAL (C09_reference_columns_partial, every Stage 1 schema, statement level only): an INSERT writes for every column attribute the image of the object's value (for a reference the referred object's primary key), an UPDATE does so for the written attributes and keeps the other columns. NOT proved: that at commit reference columns hold the referred object's key (needs: principals keep their keys, no row refers to a principal when its DELETE runs, loaded collections are complete - stated in Proofs/SessionRefs.v, checked on histories only), anything for schemas with Required references (cascade delete), that the committed database holds no other rows than the program's objects (no full simulation proof between the session model and the reference state). Two defects are refuted by model witnesses (auto-generated id clash commits an orphan row; an assignment to a seed object is lost), four queue findings of the implementation (objects live in the session but in no save queue after a failed creation / delete / collection change / Entity.set) were repaired in /repo by 751c8a4 and 6e4a87a and are recorded as fixed; one remains known (a creation on an entity with a composite key over references raises KeyError and leaves the half-built object linked and unqueued) (regression histories in corpus/C09/fixed-*.json; the model stops at those dirty sites either way).")
 LEVEL_NOTE = ('Trusted: the reference state (small, but hand-written; it trusts which operations raised), the fuzzer harness, SQLite; for the theorems the Coq kernel and the hand-written session model tied by differential runs. Composite primary keys and inheritance are outside the generators; many-to-many link rows are covered by the implementation-side search (stage 2 schemas) and by the separate link-set model (fixed two-entity schema).')
 TECHNIQUE = 'exploration of generated operation histories on real Pony+SQLite against a logical reference state (property oracle, ddmin shrinking); Coq theorems over the executable session model for the transaction structure / read-your-own-write; vm_compute correspondence model vs implementation'
 DESIGN_REF = 'DESIGN.md section 5, C09 and Appendix A'
